@@ -7,8 +7,14 @@ namespace Kvass.Pins
 theorem sidecar_pinned : Kvass.Gen.SidecarSrc.digests = [
   ("pkg/scrape/scraper.go:StatisticSeries", "8e1042141ecfdf1d"),
   ("pkg/sidecar/proxy.go:Proxy.ServeHTTP", "3fae4cf90829bafa"),
+  ("pkg/sidecar/service.go:NewService", "a194025cbfd0cc5e"),
+  ("pkg/sidecar/service.go:Service.Run", "8e08b29302190466"),
+  ("pkg/sidecar/service.go:Service.ServeHTTP", "9d14a99c0fd66472"),
+  ("pkg/sidecar/service.go:Service.localPath", "67e5104461629db3"),
   ("pkg/sidecar/service.go:Service.runtimeInfo", "e4b0c02bddadccbb"),
   ("pkg/sidecar/service.go:Service.samples", "a0de9b5b50f361cf"),
+  ("pkg/sidecar/service.go:Service.updateConfig", "8576acbbadd53336"),
+  ("pkg/sidecar/service.go:Service.updateExtraConfig", "22185eda9d8378c3"),
   ("pkg/sidecar/service.go:Service.updateTargets", "3e9dcdec1bb65461"),
   ("pkg/sidecar/targets.go:NewTargetsManager", "452f0b9ce3331f04"),
   ("pkg/sidecar/targets.go:TargetsManager.AddUpdateCallbacks", "0eec67ad8516b1ed"),
